@@ -45,7 +45,44 @@ func constString(e ast.Expr) (string, bool) {
 	return "", false
 }
 
-func writeTables(ctx *common.Ctx) {
+// writeTablesSafe runs the translator; when the source no longer has the layout it understands (a table
+// renamed, removed, computed) it records the reason and reports false: the model cannot be instantiated on
+// this run, the comparisons that need no model still run.
+func writeTablesSafe(ctx *common.Ctx) (ok bool, found map[string]string) {
+	defer func() {
+		if r := recover(); r != nil {
+			ok = false
+			msg := fmt.Sprint(r)
+			ctx.Meta.Notes = append(ctx.Meta.Notes, msg)
+			if ctx.Meta.Extra == nil {
+				ctx.Meta.Extra = map[string]any{}
+			}
+			ctx.Meta.Extra["translator_error"] = msg
+			ctx.Meta.Extra["table_suspects"] = []string{msg}
+			fmt.Fprintln(os.Stderr, msg)
+		}
+	}()
+	found = writeTables(ctx)
+	return true, found
+}
+
+// readerWhitespace: the bytes the reader skips in value mode (action skipByte 'a' or skipNewline 'k' of
+// valueMode), read off the regenerated table; the four bytes of the current reader when there is no table.
+func readerWhitespace(found map[string]string) []byte {
+	tbl := found["valueMode"]
+	if len(tbl) < 256 {
+		return []byte{' ', '\n', '\t', '\r'}
+	}
+	var ws []byte
+	for i := 0; i < 256; i++ {
+		if tbl[i] == 'a' || tbl[i] == 'k' {
+			ws = append(ws, byte(i))
+		}
+	}
+	return ws
+}
+
+func writeTables(ctx *common.Ctx) map[string]string {
 	fset := token.NewFileSet()
 	f, err := parser.ParseFile(fset, common.RepoDir()+"/code.go", nil, 0)
 	if err != nil {
@@ -98,6 +135,7 @@ func writeTables(ctx *common.Ctx) {
 	if err := os.WriteFile(filepath.Join(ctx.OutDir, "Tables.v"), []byte(sb.String()), 0o644); err != nil {
 		panic(err)
 	}
+	return found
 }
 
 func sortStrings(xs []string) []string {
